@@ -864,7 +864,7 @@ Proof.
   - left. destruct (add_origin (p_hc ps) st l name sn origin kw) as [s1 o1] eqn:E. injection H as <- <- <-.
     unfold add_origin in E. destruct (lf_at st l) as [f|]; [|inv E; reflexivity].
     destruct (get_or_make_set st T_ORIGIN sn) as [st1 sid] eqn:Hg. pose proof (gms_items _ _ _ _ _ Hg) as Hit.
-    set (st2 := set_lf st1 l (try_add_set f T_ORIGIN sn sid)) in *.
+    set (st2 := set_lf st1 l (try_add_set st1 f T_ORIGIN sn sid)) in *.
     assert (E2 : attrs_at st2 j = attrs_at st j) by (unfold attrs_at, item_at, st2; cbn [set_lf b_items]; rewrite Hit; reflexivity).
     assert (Hj2 : (j < length (b_items st2))%nat) by (unfold st2; cbn [set_lf b_items]; rewrite Hit; exact Hj).
     match type of E with context [match ?c with Some _ => _ | None => _ end = _] => destruct c end; [inv E; exact E2|].
